@@ -117,7 +117,7 @@ def draw_cfg(rng, profile=None):
         sampler['enlarge_per_dim'] = rng.choice([1.1, 1.5])
         run['n_shell'] = 1
         run['n_eff'] = rng.choice([0, 20])
-        run['f_live'] = rng.choice([0.01, 0.05])
+        run['f_live'] = rng.choice([0.05, 0.1, 0.2])
 
     def pool_spec(p):
         if rng.random() >= p:
@@ -127,7 +127,8 @@ def draw_cfg(rng, profile=None):
     cfg = dict(
         lik=lik, sampler=sampler, run=run,
         pool_l=pool_spec(profile.get('p_pool_l', 0.3)),
-        pool_s=pool_spec(profile.get('p_pool_s', 0.15)),
+        pool_s=pool_spec(0.45 if periodic is not None else
+                         profile.get('p_pool_s', 0.15)),
         pool_seed=rng.randrange(2**31),
         ckpt=profile.get('ckpt', True) if 'ckpt' in profile else (
             rng.random() < 0.85),
